@@ -57,6 +57,21 @@ def replay_isolated(drv, case):
     return r
 
 
+def rerun_keys(drv, ctx):
+    """violation keys of a second, complete run of the driver in a forked child (same enumeration, same chunking,
+    hence the same history in every worker).  Used for violations that depend on what ran earlier in the same
+    process (library-level caches, shared buffers) and therefore do not reproduce from their single case."""
+    from mc import par
+
+    def again(_):
+        out = par.roomy(drv.run, ctx)
+        return sorted({v.key for v in out.violations})
+    r = par._run_single_isolated(again, None)
+    if isinstance(r, par.Crash) or (isinstance(r, tuple) and len(r) == 3 and r[0] == "__harness_error__"):
+        return None
+    return set(r)
+
+
 def main():
     ap = argparse.ArgumentParser()
     ap.add_argument("prop", nargs="?")
@@ -100,6 +115,16 @@ def main():
     if args.replay:
         with open(args.replay) as f:
             rec = json.load(f)
+        if isinstance(rec.get("case"), dict) and rec["case"].get("replay_mode") == "whole-run":
+            keys = rerun_keys(drv, ctx)
+            if keys is None:
+                return 2
+            if rec.get("key") in keys:
+                print("REPRODUCED property=%s key=%s (whole-run replay) %s" % (prop, rec.get("key"), rec.get("what", "")))
+                print("VIOLATION property=%s replay=%s" % (prop, args.replay))
+                return 1
+            print("replay: the whole run does not report this violation on this tree")
+            return 0
         obs = [replay_isolated(drv, rec["case"]) for _ in range(2)]
         if "__error__" in obs:
             return 2
@@ -138,6 +163,7 @@ def main():
         print("KNOWN-FINDING: property=%s %s :: %s" % (prop, k, open_keys[k].get("what", known[k].what)))
     rc = 0
     confirmed = 0
+    second_run = None
     for k in sorted(fresh):
         v = fresh[k]
         # a violation is only believed if the explorer-free oracle reproduces it, twice, identically
@@ -146,10 +172,18 @@ def main():
             print("HARNESS ERROR while replaying", k)
             return 2
         if not o1 or json.dumps(outcome.jsonable(o1), sort_keys=True) != json.dumps(outcome.jsonable(o2), sort_keys=True):
-            print("HARNESS ERROR: violation %s did not reproduce deterministically from its replay case" % k)
-            print("  first:", v.what)
-            print("  replays:", o1, o2)
-            return 2
+            # not reproducible from the single case: the outcome may depend on what the same process did before
+            # (process-wide state in the library).  Believed only if a second complete run reports the same key.
+            if second_run is None:
+                print("  (violation %s does not reproduce from its single case; running the whole check a second time)" % k, flush=True)
+                second_run = rerun_keys(drv, ctx) or set()
+            if k not in second_run:
+                print("HARNESS ERROR: violation %s did not reproduce deterministically from its replay case" % k)
+                print("  first:", v.what)
+                print("  replays:", o1, o2)
+                return 2
+            v.case = {"replay_mode": "whole-run", "command": "./vcheck %s --tier %s" % (prop, tier), "case": v.case}
+            v.what += "  [depends on the calls made earlier in the same process: reproduced by a second complete run, not by the single case]"
         path = outcome.write_replay(prop, v)
         print("  what: %s" % v.what)
         print("VIOLATION property=%s replay=%s" % (prop, path))
